@@ -17,7 +17,14 @@ def main(argv):
     with open(specf) as f:
         spec = json.load(f)
     check = load_check(check_id)
-    res = getattr(check, "CHECK", check).run_shard(spec)
+    check = getattr(check, "CHECK", check)
+    if spec.get("kind") == "shrink":
+        from . import shrink
+
+        small = shrink.shrink_case(check, spec["case"], spec["key"], spec.get("budget", 60.0))
+        res = {"shrunk": small}
+    else:
+        res = check.run_shard(spec)
     with open(outf, "w") as f:
         json.dump(core.jsonable(res), f)
 
